@@ -7,9 +7,11 @@ HEAP: cells hold *references* to arrays, the code never copies on assignment, so
 Core Lean only.  Executable (the driver runs it), total.
 
 Representation
-* `Arr`   : a 2-D float array, `ncols` + rows of rationals (the harness only uses dyadic
-            values so float arithmetic is exact).  Arrays that are not 2-D never enter the heap:
-            they only occur as rejected values (`Val.arr1d`, `Val.arr3d`).
+* `Arr`   : a 2-D array, `ncols` + rows of rationals + dtype kind (`isInt`: int64, else float64;
+            the harness only uses small dyadic values so float arithmetic is exact).  Writing into
+            an int array casts like NumPy's assignment does (C cast: truncation toward zero).
+            Arrays that are not 2-D never enter the heap: they only occur as rejected values
+            (`Val.arr1d`, `Val.arr3d`).
 * heap    : `List Arr`, a reference is an index, allocation appends (no GC) — so "fresh" is
             `r ≥ old heap length`.
 * `Vec`   : shape, row-major flat list of cells `Option Ref` (the nested Python lists
@@ -38,13 +40,22 @@ abbrev Ref := Nat
 structure Arr where
   ncols : Nat
   rows : List (List Rat)
+  isInt : Bool := false          -- dtype kind: int64 (true) or float64 (false)
   deriving Repr, DecidableEq, Inhabited
+
+/-- C cast of a finite float to int64: truncation toward zero -/
+def truncQ (x : Rat) : Rat := ((Int.tdiv x.num x.den : Int) : Rat)
+
+/-- the value that is stored when `x` is assigned into an array of the given dtype kind
+(`arr[...] = x` casts with NumPy's assignment rule: float → int truncates, silently) -/
+def castTo (isInt : Bool) (x : Rat) : Rat := if isInt then truncQ x else x
 
 /-- make a row exactly `n` long (identity on rows that already are) -/
 def fitRow (n : Nat) (r : List Rat) : List Rat := (r ++ List.replicate n 0).take n
 
-/-- `np.array([[...], ...])` of a rectangular literal with `n` columns -/
-def Arr.lit (n : Nat) (rows : List (List Rat)) : Arr := ⟨n, rows.map (fitRow n)⟩
+/-- `np.array([[...], ...])` of a rectangular literal with `n` columns (all-int literal → int64) -/
+def Arr.lit (n : Nat) (rows : List (List Rat)) (isInt : Bool := false) : Arr :=
+  { ncols := n, rows := rows.map fun r => (fitRow n r).map (castTo isInt), isInt := isInt }
 
 def Arr.nrows (a : Arr) : Nat := a.rows.length
 
@@ -56,19 +67,25 @@ def setColRows (j : Nat) : List (List Rat) → List Rat → List (List Rat)
   | r :: rs, [] => r :: rs
   | r :: rs, x :: xs => r.set j x :: setColRows j rs xs
 
-/-- `arr[:, j] = xs` (in place: same array object, same shape) -/
-def Arr.setCol (a : Arr) (j : Nat) (xs : List Rat) : Arr := ⟨a.ncols, setColRows j a.rows xs⟩
+/-- `arr[:, j] = xs` (in place: same array object, same shape, same dtype: values are cast) -/
+def Arr.setCol (a : Arr) (j : Nat) (xs : List Rat) : Arr :=
+  { a with rows := setColRows j a.rows (xs.map (castTo a.isInt)) }
 
 /-- `arr[:, j] = op(arr[:, j])` -/
 def Arr.mapCol (a : Arr) (j : Nat) (f : Rat → Rat) : Arr :=
-  ⟨a.ncols, a.rows.map fun r => r.set j (f (r.getD j 0))⟩
+  { a with rows := a.rows.map fun r => r.set j (castTo a.isInt (f (r.getD j 0))) }
 
-/-- `np.hstack([arr, np.zeros((arr.shape[0], k))])` -/
-def Arr.addCols (a : Arr) (k : Nat) : Arr := ⟨a.ncols + k, a.rows.map (· ++ List.replicate k 0)⟩
+/-- `arr[k] = row` (in place) -/
+def Arr.setRow (a : Arr) (k : Nat) (row : List Rat) : Arr :=
+  { a with rows := a.rows.set k ((fitRow a.ncols row).map (castTo a.isInt)) }
 
-/-- `arr[:, keep_indices]` -/
+/-- `np.hstack([arr, np.zeros((arr.shape[0], k))])` — the float64 pad promotes the result to float64 -/
+def Arr.addCols (a : Arr) (k : Nat) : Arr :=
+  { ncols := a.ncols + k, rows := a.rows.map (· ++ List.replicate k 0), isInt := false }
+
+/-- `arr[:, keep_indices]` (keeps the dtype) -/
 def Arr.keepCols (a : Arr) (keep : List Nat) : Arr :=
-  ⟨keep.length, a.rows.map fun r => keep.map (r.getD · 0)⟩
+  { ncols := keep.length, rows := a.rows.map fun r => keep.map (r.getD · 0), isInt := a.isInt }
 
 /-! ### vectors and state -/
 
@@ -207,7 +224,7 @@ inductive SetVal where
 /-- item of the list given to `from_data` / the `data` setter -/
 inductive DItem where
   | val (v : Val)
-  | lit (ncols : Nat) (rows : List (List Rat))   -- nested Python list, `np.array(item)` is 2-D
+  | lit (ncols : Nat) (rows : List (List Rat)) (isInt : Bool)   -- nested Python list, `np.array(item)` is 2-D (int64 if all ints)
   | lit1d                                         -- Python list whose `np.array` is 1-D
   deriving Repr, Inhabited
 
@@ -216,15 +233,33 @@ inductive FlatVal where
   | notOneD                  -- `np.asarray(values).ndim != 1`
   deriving Repr, Inhabited
 
+/-- right operand of field arithmetic `v[name] op= rhs` -/
+inductive Rhs where
+  | scalar (c : Rat)
+  | array (ys : List Rat)              -- a 1-D ndarray
+  | field (w : Nat) (name : String)    -- another `_FieldView` (converted by `np.asarray` = its `flatten()`, at every use)
+  deriving Repr, Inhabited
+
+/-- what NumPy hands back when `v[i, j, extra…]` keeps indexing INTO the cell array -/
+inductive NpVal where
+  | arr2 (ncols : Nat) (rows : List (List Rat)) (isInt : Bool)
+  | arr1 (xs : List Rat) (isInt : Bool)
+  | scalar (x : Rat) (isInt : Bool)
+  deriving Repr, Inhabited
+
 inductive Op where
-  | alloc (ncols : Nat) (rows : List (List Rat))          -- the caller creates an ndarray
+  | alloc (ncols : Nat) (rows : List (List Rat)) (isInt : Bool)   -- the caller creates an ndarray
   | fromShape (shape : List Int) (numFields : Option Int) (fields units : Option (List String))
   | fromData (items : List DItem) (numFields : Option Int) (fields units : Option (List String))
   | getData (v : Nat) (idx : List Ix)
   | setData (v : Nat) (idx : List Ix) (val : SetVal)
   | getItem (v : Nat) (idx : List Ix)
   | setItem (v : Nat) (idx : List Ix) (val : SetVal)
-  | fieldOp (v : Nat) (name : String) (f : Rat → Rat)      -- v[name] += c  etc.
+  | fieldOp (v : Nat) (name : String) (f : Rat → Rat)      -- v[name] += c  etc. (scalar operand)
+  /-- `v[name] op= rhs` with `g x y` the elementwise operation; `negIntPow`: `**=` with a negative
+  Python-int exponent (NumPy refuses that on integer arrays) -/
+  | fieldOpGen (v : Nat) (name : String) (g : Rat → Rat → Rat) (negIntPow : Bool) (rhs : Rhs)
+  | fieldGet (v : Nat) (name : String) (idx : List Ix)     -- v[name][idx]
   | setFlattened (v : Nat) (name : String) (vals : FlatVal) -- v[name].set_flattened(x) / v[name] = x
   | writeBack (v : Nat) (name : String)                    -- v[name].set_flattened(v[name].flatten())
   | addFields (v : Nat) (names : List String)
@@ -239,6 +274,7 @@ inductive Res where
   | newRef (r : Ref)
   | cell (c : Option Ref)
   | cells (cs : List (Option Ref))
+  | np (v : NpVal)
   | err (e : Err)
   deriving Repr, Inhabited
 
@@ -300,8 +336,7 @@ def opFromShape (s : State) (shape : List Int) (numFields : Option Int)
     (fields units : Option (List String)) : State × Res :=
   match validateShape shape with
   | .error e => (s, .err e)
-  | .ok [] => (s, .err .unsupported)
-  | .ok sh =>
+  | .ok sh =>        -- shape () is accepted: `_data = nested_list((), None) = None`, one never-settable cell
     match resolveFields numFields fields with
     | .error e => (s, .err e)
     | .ok fs =>
@@ -314,7 +349,7 @@ def opFromShape (s : State) (shape : List Int) (numFields : Option Int)
 /-- `shape[1]` of an item that is (convertible to) a 2-D ndarray -/
 def DItem.cols (heap : List Arr) : DItem → Option Nat
   | .val (.ref r) => (heap[r]?).map (·.ncols)
-  | .lit n _ => some n
+  | .lit n _ _ => some n
   | _ => none
 
 /-- is the item an ndarray (of any ndim) after `np.array(list)` conversion? -/
@@ -323,7 +358,7 @@ def DItem.isArray (heap : List Arr) : DItem → Bool
   | .val .arr1d => true
   | .val (.arr3d _) => true
   | .val .notArray => false
-  | .lit _ _ => true
+  | .lit _ _ _ => true
   | .lit1d => true
 
 /-- one leaf of `validate_vector_data`: a list is converted (`np.array(item)`: a NEW array), an
@@ -336,7 +371,7 @@ def DItem.store (heap : List Arr) (nf : Nat) : DItem → Except Err (List Arr ×
   | .val .arr1d => .error .valueError
   | .val (.arr3d _) => .error .valueError
   | .val .notArray => .error .typeError
-  | .lit n rows => if n = nf then .ok (heap ++ [Arr.lit n rows], heap.length) else .error .valueError
+  | .lit n rows t => if n = nf then .ok (heap ++ [Arr.lit n rows t], heap.length) else .error .valueError
   | .lit1d => .error .valueError
 
 /-- leaf loop of `validate_vector_data`; the first bad item raises and nothing is assigned. -/
@@ -390,6 +425,8 @@ def opSetDataAttr (s : State) (vid : Nat) (lens : List Nat) (items : List DItem)
   match s.getVec vid with
   | .error e => (s, .err e)
   | .ok v =>
+    -- zero fixed dimensions: `len(data) != shape[0]` → IndexError: tuple index out of range
+    if v.shape.length = 0 then (s, .err .indexError) else
     if lens.length > v.shape.length then (s, .err .unsupported) else
     -- `len(data) != shape[0]` is tested level by level before descending
     if lens ≠ v.shape.take lens.length then (s, .err .valueError) else
@@ -424,13 +461,41 @@ def Ix.isInt : Ix → Bool
   | .int _ => true
   | _ => false
 
-/-- `Vector.__getitem__(idx)` for non-string `idx` -/
-def opGetItem (s : State) (vid : Nat) (idx : List Ix) : State × Res :=
-  match s.getVec vid with
-  | .error e => (s, .err e)
-  | .ok v =>
+/-- NumPy indexing of the cell array by ONE more index (`view = view[i]`) -/
+def npIndex : NpVal → Ix → Except Err NpVal
+  | .arr2 _ rows t, .int i => match pyIndex rows.length i with
+      | .ok p => .ok (.arr1 (rows.getD p []) t)
+      | .error e => .error e
+  | .arr2 c rows t, .slice a b st => match sliceIndices rows.length a b st with
+      | .ok (s, e, st) => .ok (.arr2 c ((arange s e st).map fun i => rows.getD i.toNat []) t)
+      | .error e => .error e
+  | .arr2 c rows t, .list is =>
+      if is.isEmpty then .error .indexError        -- np.asarray([]) is a float array: not a valid index
+      else match wrapAll rows.length is with
+        | .ok ps => .ok (.arr2 c (ps.map fun p => rows.getD p []) t)
+        | .error e => .error e
+  | .arr1 xs t, .int i => match pyIndex xs.length i with
+      | .ok p => .ok (.scalar (xs.getD p 0) t)
+      | .error e => .error e
+  | .arr1 xs t, .slice a b st => match sliceIndices xs.length a b st with
+      | .ok (s, e, st) => .ok (.arr1 ((arange s e st).map fun i => xs.getD i.toNat 0) t)
+      | .error e => .error e
+  | .arr1 xs t, .list is =>
+      if is.isEmpty then .error .indexError
+      else match wrapAll xs.length is with
+        | .ok ps => .ok (.arr1 (ps.map fun p => xs.getD p 0) t)
+        | .error e => .error e
+  | .scalar _ _, _ => .error .indexError           -- "invalid index to scalar variable."
+
+def npIndexAll : NpVal → List Ix → Except Err NpVal
+  | v, [] => .ok v
+  | v, ix :: ixs => match npIndex v ix with
+      | .ok v' => npIndexAll v' ixs
+      | .error e => .error e
+
+/-- `Vector.__getitem__(idx)` for at most as many indices as fixed dimensions -/
+def getItemCore (s : State) (v : Vec) (idx : List Ix) : State × Res :=
     let nd := v.shape.length
-    if idx.length > nd then (s, .err .unsupported) else
     if idx.all Ix.isInt && idx.length == nd then
       -- return_np: view = self._data; for i in idx: view = view[i]
       match resolveAll false v.shape idx with
@@ -456,6 +521,34 @@ def opGetItem (s : State) (vid : Nat) (idx : List Ix) : State × Res :=
               -- vector_new._data = new_data  (cells are shared with the source)
               let (s', id) := s.mkVec newShape (ps.map fun p => (v.cells[p]?).join) fs us
               (s', .newVec id)
+
+/-- more indices than fixed dimensions, the first `nd` all ints: `return_np` keeps walking
+`view = view[i]` — through the nested lists to the cell, then INTO the cell array. -/
+def getItemLong (s : State) (v : Vec) (idx : List Ix) : State × Res :=
+  let nd := v.shape.length
+  match resolveAll false v.shape (idx.take nd) with
+  | .error e => (s, .err e)
+  | .ok ls => match positions v.shape ls with
+    | .error e => (s, .err e)
+    | .ok ps => match (v.cells[ps.headD 0]?).join with
+      | none => (s, .err .typeError)           -- 'NoneType' object is not subscriptable
+      | some r => match s.heap[r]? with
+        | none => (s, .err .typeError)
+        | some a => match npIndexAll (.arr2 a.ncols a.rows a.isInt) (idx.drop nd) with
+          | .ok val => (s, .np val)
+          | .error e => (s, .err e)
+
+/-- `Vector.__getitem__(idx)` for non-string `idx` -/
+def opGetItem (s : State) (vid : Nat) (idx : List Ix) : State × Res :=
+  match s.getVec vid with
+  | .error e => (s, .err e)
+  | .ok v =>
+    let nd := v.shape.length
+    if idx.length > nd then
+      if (idx.take nd).all Ix.isInt then getItemLong s v idx
+      -- otherwise `zip(full_idx, self.shape)` silently drops the surplus indices
+      else getItemCore s v (idx.take nd)
+    else getItemCore s v idx
 
 /-! ### assignment -/
 
@@ -486,7 +579,13 @@ def opSetData (s : State) (vid : Nat) (idx : List Ix) (val : SetVal) : State × 
       | .ok ps =>
         if ls.all (·.length == 1) then
           match val with
-          | .one x => finish s vid v (setCells s.heap v.fields.length v.cells ps [x])
+          | .one x =>
+              if v.shape.length = 0 then
+                -- zero fixed dimensions: the value is validated, then `indices_arrays[-1]` raises IndexError
+                match checkVal s.heap v.fields.length x with
+                | .error e => (s, .err e)
+                | .ok _ => (s, .err .indexError)
+              else finish s vid v (setCells s.heap v.fields.length v.cells ps [x])
           | _ => (s, .err .typeError)            -- "Value must be a numpy array"
         else
           match val with
@@ -520,13 +619,9 @@ def vecAsVals (w : Vec) : Except Err (List Val) :=
   if w.cells.any Option.isNone then .error .typeError
   else .ok (w.cells.filterMap fun c => c.map Val.ref)
 
-/-- `Vector.__setitem__(idx, value)` for non-string `idx` -/
-def opSetItem (s : State) (vid : Nat) (idx : List Ix) (val : SetVal) : State × Res :=
-  match s.getVec vid with
-  | .error e => (s, .err e)
-  | .ok v =>
+/-- `Vector.__setitem__(idx, value)` for at most as many indices as fixed dimensions -/
+def setItemCore (s : State) (vid : Nat) (v : Vec) (idx : List Ix) (val : SetVal) : State × Res :=
     let nd := v.shape.length
-    if idx.length > nd then (s, .err .unsupported) else
     let idx := padIdx nd idx       -- fewer indices than dimensions: trailing slice(None)
     if idx.any Ix.isFancy then
       -- value: Vector → its cells; else must be a list
@@ -552,10 +647,76 @@ def opSetItem (s : State) (vid : Nat) (idx : List Ix) (val : SetVal) : State × 
       | .one x =>
           match checkVal s.heap v.fields.length x with
           | .error e => (s, .err e)
-          | .ok r => match walkSingle v.shape idx with
+          | .ok r =>
+            -- zero fixed dimensions and no index: `idx_converted[-1]` raises IndexError
+            if nd = 0 then (s, .err .indexError) else
+            match walkSingle v.shape idx with
               | .error e => (s, .err e)
               | .ok p => (s.putVec vid { v with cells := v.cells.set p (some r) }, .none)
       | _ => (s, .err .typeError)                -- "Value must be a numpy array"
+
+def Ix.intVal : Ix → Option Int
+  | .int i => some i
+  | _ => none
+
+/-- single-cell branch with MORE indices than fixed dimensions: the value is validated, the walk
+`ref = ref[i]` goes through the nested lists to the cell and on into the cell array, and the last
+index assigns into it: `arr[k] = value` overwrites one row IN PLACE (NumPy broadcasting: the value
+must have exactly one row); deeper targets cannot take a 2-D value. -/
+def setItemLong (s : State) (v : Vec) (idx : List Ix) (val : SetVal) : State × Res :=
+  let nd := v.shape.length
+  match val with
+  | .one x =>
+    match checkVal s.heap v.fields.length x with
+    | .error e => (s, .err e)
+    | .ok rv =>
+      match walkSingle v.shape (idx.take nd) with
+      | .error e => (s, .err e)
+      | .ok p =>
+        match (v.cells[p]?).join with
+        | none => (s, .err .typeError)     -- 'NoneType' object is not subscriptable / does not support item assignment
+        | some r =>
+          match s.heap[r]?, s.heap[rv]? with
+          | some a, some b =>
+            match (idx.drop nd).mapM Ix.intVal with
+            | none => (s, .err .unsupported)   -- slices / lists INTO the cell array: NumPy view-vs-copy semantics, not modelled
+            | some [] => (s, .err .unsupported)
+            | some [k1] =>
+                match pyIndex a.nrows k1 with
+                | .error e => (s, .err e)
+                | .ok k =>
+                  -- arr[k] = value : shape (ncols,) ← (m, ncols) needs m = 1
+                  if b.nrows ≠ 1 then (s, .err .valueError)
+                  else ({ s with heap := s.heap.set r (a.setRow k (b.rows.headD [])) }, .none)
+            | some [k1, k2] =>
+                match pyIndex a.nrows k1 with
+                | .error e => (s, .err e)
+                | .ok _ => match pyIndex a.ncols k2 with
+                  | .error e => (s, .err e)
+                  | .ok _ => (s, .err .valueError)    -- "setting an array element with a sequence."
+            | some (k1 :: k2 :: _ :: rest) =>
+                match pyIndex a.nrows k1 with
+                | .error e => (s, .err e)
+                | .ok _ => match pyIndex a.ncols k2 with
+                  | .error e => (s, .err e)
+                  | .ok _ =>
+                    if rest.isEmpty then (s, .err .typeError)   -- 'numpy.float64' object does not support item assignment
+                    else (s, .err .indexError)                  -- invalid index to scalar variable
+          | _, _ => (s, .err .typeError)
+  | _ => (s, .err .typeError)                -- "Value must be a numpy array"
+
+/-- `Vector.__setitem__(idx, value)` for non-string `idx` -/
+def opSetItem (s : State) (vid : Nat) (idx : List Ix) (val : SetVal) : State × Res :=
+  match s.getVec vid with
+  | .error e => (s, .err e)
+  | .ok v =>
+    let nd := v.shape.length
+    if idx.length > nd then
+      -- `has_fancy` only looks at the first nd indices; the fancy branch zips with the shape and so
+      -- drops the surplus indices
+      if (idx.take nd).any Ix.isFancy then setItemCore s vid v (idx.take nd) val
+      else setItemLong s v idx val
+    else setItemCore s vid v idx val
 
 /-! ### field views -/
 
@@ -629,6 +790,92 @@ def opFieldOp (s : State) (vid : Nat) (name : String) (f : Rat → Rat) : State 
     | .ok j =>
       let s1 : State := { s with heap := applyOp j f s.heap v.cells }
       setFlat s1 v j (.oneD (flattenField s1.heap v.cells j))
+
+/-- dtype kind of `np.concatenate` / `np.vstack` over the populated cells (`flatten`): int64 only
+if there is at least one populated cell and all of them are int64; the empty result is float64 -/
+def flattenIsInt (heap : List Arr) (cells : List (Option Ref)) : Bool :=
+  let arrs := cells.filterMap fun c => c.bind fun r => heap[r]?
+  !arrs.isEmpty && arrs.all (·.isInt)
+
+/-- NumPy broadcasting of a 1-D operand of length `k` against a column with `n` entries, followed by
+the assignment back into that column: works iff `k = n` or `k = 1` -/
+def broadcastTo (n : Nat) (ys : List Rat) : Option (List Rat) :=
+  if ys.length = n then some ys
+  else if ys.length = 1 then some (List.replicate n (ys.headD 0))
+  else none
+
+/-- right operand with the other field view already looked up -/
+inductive RhsR where
+  | scalar (c : Rat)
+  | array (ys : List Rat)
+  | field (cells : List (Option Ref)) (j : Nat)
+
+/-- `_apply_op` with a general right operand: cells are visited in order and written through the
+reference; the first cell whose operand does not broadcast (ValueError) — or, for `**` with a
+negative Python-int exponent, the first non-empty int64 cell (ValueError) — stops the loop and
+leaves the earlier cells updated. -/
+def applyGen (j : Nat) (g : Rat → Rat → Rat) (negIntPow : Bool) (rhs : RhsR) :
+    List Arr → List (Option Ref) → List Arr × Option Err
+  | heap, [] => (heap, none)
+  | heap, none :: cs => applyGen j g negIntPow rhs heap cs
+  | heap, some r :: cs =>
+      match heap[r]? with
+      | none => applyGen j g negIntPow rhs heap cs
+      | some a =>
+        -- "Integers to negative integer powers are not allowed."
+        if negIntPow && a.isInt && a.nrows != 0 then (heap, some .valueError) else
+        let ys? : Option (List Rat) := match rhs with
+          | .scalar c => some (List.replicate a.nrows c)
+          | .array ys => broadcastTo a.nrows ys
+          | .field wcells jw => broadcastTo a.nrows (flattenField heap wcells jw)   -- np.asarray(other) now
+        match ys? with
+        | none => (heap, some .valueError)       -- operands could not be broadcast together / into shape
+        | some ys =>
+          applyGen j g negIntPow rhs (heap.set r (a.setCol j (List.zipWith g (a.col j) ys))) cs
+
+/-- `v[name] op= rhs` for scalar, 1-D ndarray and `_FieldView` operands -/
+def opFieldOpGen (s : State) (vid : Nat) (name : String) (g : Rat → Rat → Rat) (negIntPow : Bool)
+    (rhs : Rhs) : State × Res :=
+  match s.getVec vid with
+  | .error e => (s, .err e)
+  | .ok v => match fieldIndex v name with
+    | .error e => (s, .err e)
+    | .ok j =>
+      let rhsR : Except Err RhsR := match rhs with
+        | .scalar c => .ok (.scalar c)
+        | .array ys => .ok (.array ys)
+        | .field w nm => match s.getVec w with
+            | .error e => .error e
+            | .ok wv => match fieldIndex wv nm with
+              | .error e => .error e
+              | .ok jw => .ok (.field wv.cells jw)
+      match rhsR with
+      | .error e => (s, .err e)
+      | .ok r =>
+        match applyGen j g negIntPow r s.heap v.cells with
+        | (heap', some e) => ({ s with heap := heap' }, .err e)     -- raised inside __iop__: no re-assignment
+        | (heap', none) =>
+          let s1 : State := { s with heap := heap' }
+          setFlat s1 v j (.oneD (flattenField s1.heap v.cells j))
+
+/-- `v[name][idx]` : `_FieldView.__getitem__` = `sub = self.vector[idx]`, then the field of the
+sub-vector, the column of the cell array, or `None` -/
+def opFieldGet (s : State) (vid : Nat) (name : String) (idx : List Ix) : State × Res :=
+  match s.getVec vid with
+  | .error e => (s, .err e)
+  | .ok v => match fieldIndex v name with
+    | .error e => (s, .err e)
+    | .ok j =>
+      match opGetItem s vid idx with
+      | (s', .newVec id) => (s', .newVec id)            -- sub[self.field_name]: a view on the sub-vector
+      | (s', .cell (some r)) => match s'.heap[r]? with
+          | some a => (s', .np (.arr1 (a.col j) a.isInt))  -- sub[:, self.field_index]
+          | none => (s', .cell none)
+      | (s', .np (.arr2 _ rows t)) => (s', .np (.arr1 (rows.map (·.getD j 0)) t))
+      | (s', .np (.arr1 _ _)) => (s', .err .indexError)  -- too many indices for a 1-D array
+      | (s', .np (.scalar _ _)) => (s', .cell none)       -- neither Vector nor ndarray: returns None
+      | (s', .cell none) => (s', .cell none)
+      | (s', r) => (s', r)
 
 /-! ### adding / removing fields -/
 
@@ -734,7 +981,7 @@ def opMetaSet (s : State) (vid : Nat) (k : String) (x : Int) : State × Res :=
 /-! ### the machine -/
 
 def step (s : State) : Op → State × Res
-  | .alloc n rows => ({ s with heap := s.heap ++ [Arr.lit n rows] }, .newRef s.heap.length)
+  | .alloc n rows t => ({ s with heap := s.heap ++ [Arr.lit n rows t] }, .newRef s.heap.length)
   | .fromShape sh nf fs us => opFromShape s sh nf fs us
   | .fromData items nf fs us => opFromData s items nf fs us
   | .getData v idx => opGetData s v idx
@@ -742,6 +989,8 @@ def step (s : State) : Op → State × Res
   | .getItem v idx => opGetItem s v idx
   | .setItem v idx val => opSetItem s v idx val
   | .fieldOp v name f => opFieldOp s v name f
+  | .fieldOpGen v name g neg rhs => opFieldOpGen s v name g neg rhs
+  | .fieldGet v name idx => opFieldGet s v name idx
   | .setFlattened v name vals => opSetFlattened s v name vals
   | .writeBack v name => opWriteBack s v name
   | .addFields v names => opAddFields s v names
